@@ -270,6 +270,11 @@ def views_history(ctx, kind, start, hist, warm):
             obj.ctrlpts_size_u, obj.ctrlpts_size_v, obj.ctrlpts_size_w = sizes
     for step, view in enumerate(hist):
         tag = 's%d:%s' % (step + 1, view)
+        held = None
+        if warm and (start == 'set' or step > 0):
+            # what the caller read before the edit is the caller's data: the edit must not change it under the caller
+            held = (obj.weights, obj.ctrlpts)
+            snap = (list(held[0]), _copy2(held[1]))
         if view == 'P':
             P = shapes.net(ctx, 'BCD'[step], n, dim)
             obj.ctrlpts = _copy2(P)
@@ -280,6 +285,13 @@ def views_history(ctx, kind, start, hist, warm):
             P = shapes.net(ctx, 'BCD'[step], n, dim)
             W = shapes.weights(ctx, 'bcd'[step], n)
             obj.ctrlptsw = _copy2(spec.weighted(P, W))
+        if held is not None:
+            ctx.check_true(tag + '.earlier_weights_result_untouched', len(held[0]) == len(snap[0]),
+                           'a weights list read before the edit now has %d entries (had %d)' % (len(held[0]), len(snap[0])))
+            if len(held[0]) == len(snap[0]):
+                ctx.check_eq_vec(tag + '.earlier_weights_result_untouched.values', held[0], snap[0])
+            ctx.check_true(tag + '.earlier_ctrlpts_result_untouched', len(held[1]) == len(snap[1]),
+                           'a ctrlpts list read before the edit now has %d entries (had %d)' % (len(held[1]), len(snap[1])))
         if warm or step == len(hist) - 1:
             _read_views(ctx, tag, obj, kind, P, W)
     # idempotent re-assignment of what was read (round trip through the object itself)
